@@ -1214,11 +1214,24 @@ impl Session {
                 let session_id = session.id();
                 let mut ticker = time::interval(heartbeat_state.interval);
                 ticker.set_missed_tick_behavior(MissedTickBehavior::Delay);
-                // When the most recent keep-alive request was sent (None before the first one)
-                let mut last_probe: Option<Instant> = None;
+                // Send time of the oldest keep-alive request since which the peer has not been heard
+                let mut waiting_since: Option<Instant> = None;
 
                 loop {
-                    ticker.tick().await;
+                    // Wake at the next tick, or when that request runs out of time, whichever comes first
+                    let deadline = match waiting_since {
+                        Some(sent) => sent.checked_add(heartbeat_state.timeout),
+                        None => None,
+                    };
+                    let tick_due = tokio::select! {
+                        _ = ticker.tick() => true,
+                        _ = async {
+                            match deadline {
+                                Some(at) => time::sleep_until(at).await,
+                                None => std::future::pending::<()>().await,
+                            }
+                        } => false,
+                    };
 
                     if session.is_closed() {
                         tracing::debug!(
@@ -1228,31 +1241,37 @@ impl Session {
                         break;
                     }
 
-                    let (last_seen, unanswered) = {
-                        let guard = heartbeat_state.last_received.lock().await;
-                        let unanswered = match last_probe {
-                            Some(sent) => *guard < sent,
-                            None => false,
-                        };
-                        (Instant::now().saturating_duration_since(*guard), unanswered)
-                    };
-
-                    // The peer is dead only while a request is still unanswered: a tick that comes late must not
-                    // count against a peer that has answered everything it was asked
-                    if unanswered && last_seen > heartbeat_state.timeout {
-                        tracing::warn!(
-                            session_id = session_id,
-                            elapsed_ms = last_seen.as_millis() as u64,
-                            "[Session] Heartbeat timeout detected; closing session"
-                        );
-                        if let Err(e) = session.close().await {
-                            tracing::error!(
+                    // The peer is dead when a request has gone a whole timeout without any answer arriving.
+                    // Measuring from the request (not from the last answer) keeps a peer alive that answers every
+                    // request in time, however the reply times vary and however late this task is woken.
+                    let last_received = *heartbeat_state.last_received.lock().await;
+                    if let Some(sent) = waiting_since {
+                        if last_received >= sent {
+                            waiting_since = None;
+                        } else if Instant::now().saturating_duration_since(sent)
+                            >= heartbeat_state.timeout
+                        {
+                            tracing::warn!(
                                 session_id = session_id,
-                                "[Session] Failed to close session after heartbeat timeout: {}",
-                                e
+                                elapsed_ms = Instant::now()
+                                    .saturating_duration_since(last_received)
+                                    .as_millis()
+                                    as u64,
+                                "[Session] Heartbeat timeout detected; closing session"
                             );
+                            if let Err(e) = session.close().await {
+                                tracing::error!(
+                                    session_id = session_id,
+                                    "[Session] Failed to close session after heartbeat timeout: {}",
+                                    e
+                                );
+                            }
+                            break;
                         }
-                        break;
+                    }
+
+                    if !tick_due {
+                        continue;
                     }
 
                     let sent_at = Instant::now();
@@ -1275,7 +1294,9 @@ impl Session {
                         break;
                     }
 
-                    last_probe = Some(sent_at);
+                    if waiting_since.is_none() {
+                        waiting_since = Some(sent_at);
+                    }
                     tracing::trace!(
                         session_id = session_id,
                         "[Session] Heartbeat request sent successfully"
